@@ -146,6 +146,15 @@ Example C02_example_history_runs :
             [mkReply 229 [40;124;124;124;53;124;41]; mkReply 550 []]; [mkReply 257 []]].
 Proof. vm_compute. reflexivity. Qed.
 
+(* non-vacuity of the callback cases of [historyK] (ex_historyK, History2_Proofs.v): a download with a callback, then an
+   upload cancelled after its last block *)
+Example C02_example_historyK_runs :
+  let w0 := mkW (mkConfig Passive true TBinary false false) true false false O true false [] [] [] exk_script false false no_plan [] None no_io O 1%nat [] in
+  map outcome_replies (fst (steps w0 exk_calls)) =
+  map Some [[mkReply 229 [40;124;124;124;53;124;41]; mkReply 150 []; mkReply 226 []];
+            [mkReply 229 [40;124;124;124;53;124;41]; mkReply 150 []; mkReply 426 []; mkReply 226 [65]]].
+Proof. vm_compute. reflexivity. Qed.
+
 (* PARTIAL / recorded findings: (1) logout / connect inside mixed histories, transfers in the active modes or under
    TLS inside histories (the single-call theorems exist, see Transfer_More.v), the completion reply written together with
    the preliminary one, and the other ABOR orders are covered by the correspondence and the lockstep oracle of
